@@ -59,7 +59,7 @@ def gen_value(r: random.Random, depth: int = 2, hostile: bool = False) -> Any:
 PATHS = ["subject.id", "subject.roles", "subject.attrs.level", "subject.attrs.owner", "subject.attrs.tag",
          "resource.id", "resource.type", "resource.attrs.owner", "resource.attrs.level", "resource.attrs.tag",
          "context.n", "context.when", "context.s", "context.xs", "context.missing", "context.n.deeper",
-         "action", "nope.nope", "context"]
+         "action", "nope.nope", "context", "context.xs.0", "context.xs.7", "context.xs.-1", "subject.roles.0", "context.xs.²", "context.n.0"]
 
 
 def gen_operand(r: random.Random, kind: str, hostile: bool) -> Any:
